@@ -31,7 +31,7 @@ func GoEnv() []string {
 		}
 		out = append(out, e)
 	}
-	return append(out, "GOFLAGS=-mod=mod", "GOPROXY=off", "GOSUMDB=off", "GOTOOLCHAIN=local", "GOMAXPROCS=8")
+	return append(out, "GOFLAGS=-mod=mod -tags=verif", "GOPROXY=off", "GOSUMDB=off", "GOTOOLCHAIN=local", "GOMAXPROCS=8")
 }
 
 // BuildOverlay maps the harness directory tree onto /repo/pkg: harnessDir/<pkgpath>/*.go ->
